@@ -38,13 +38,12 @@ pub fn e2e_cases(args: &Args, ncases: u64, stream: u64) -> Acc {
     acc.count("e2e_endpoints_created_after_a_deletion", out.newcomers);
     acc.count("e2e_transient_matches_with_deleted_endpoints_taken_back_in_time", out.ghost_matches);
     acc.count("e2e_best_effort_reader_order_or_duplicate_anomalies_not_judged", out.best_effort_order_anomalies);
-    acc.count("e2e_max_match_wait_ms", 0);
-    let k = format!("e2e_max_match_wait_ms");
-    let cur = acc.counters.get(&k).copied().unwrap_or(0);
-    acc.counters.insert(k, cur.max((out.max_match_s * 1000.0) as u64));
-    let k = "e2e_max_delivery_wait_ms".to_string();
-    let cur = acc.counters.get(&k).copied().unwrap_or(0);
-    acc.counters.insert(k, cur.max((out.max_deliver_s * 1000.0) as u64));
+    // longest wait of the scenario, as a histogram over scenarios (counters are summed over the shards)
+    let bucket = |x: f64| if x < 1.0 { "under_1s" } else if x < 3.0 { "1_to_3s" } else if x < 10.0 { "3_to_10s" } else if x < 40.0 { "10_to_40s" } else { "over_40s_wall" };
+    if out.completed {
+      acc.count(&format!("e2e_longest_match_wait_{}", bucket(out.max_match_s)), 1);
+      acc.count(&format!("e2e_longest_delivery_wait_{}", bucket(out.max_deliver_s)), 1);
+    }
     if out.completed {
       acc.count("e2e_scenarios_completed", 1);
       acc.count(if sc.with_key { "e2e_scenarios_with_key" } else { "e2e_scenarios_no_key" }, 1);
